@@ -38,6 +38,37 @@ func (o Order) String() string {
 
 type obsStats struct {
 	mapDecisions, mapNonSorted int
+	slowCallbacks              int
+}
+
+// cbDelay is the simulated time every callback of the program (value/argument completion functions,
+// command functions) takes in the current execution: how long the program's own code runs is not part of
+// "definition, arguments and environment", so the result must not depend on it. Chosen per execution
+// from the order descriptor; never a real sleep (off under the real runtime).
+var cbDelay time.Duration
+var cbSlow *int
+
+var cbDelays = [...]time.Duration{0, time.Microsecond, 20 * time.Millisecond, 400 * time.Millisecond, 3 * time.Second, 2 * time.Minute, 5 * time.Hour}
+
+func delayFor(ord Order) time.Duration {
+	switch ord.Base {
+	case "asc":
+		return 0
+	case "desc":
+		return cbDelays[4]
+	case "rot":
+		return cbDelays[3]
+	}
+	return cbDelays[(ord.Seed>>7)%uint64(len(cbDelays))]
+}
+
+func userLatency() {
+	if cbDelay > 0 && !simrt.RealRuntime {
+		simrt.Sleep(cbDelay)
+		if cbSlow != nil {
+			*cbSlow++
+		}
+	}
 }
 
 // callLog collects, per execution, the calls the library makes into the program's completion
@@ -73,6 +104,7 @@ func define(o *getoptions.GetOpt, d OptDef) {
 	if d.SuggFn {
 		name := d.Name
 		fns = append(fns, o.SuggestedValuesFn(func(target string, partial string) []string {
+			userLatency()
 			if callLog != nil {
 				fmt.Fprintf(callLog, "[valuefn %s target=%s partial=%q]", name, target, partial)
 			}
@@ -213,6 +245,7 @@ func build(o *getoptions.GetOpt, c *CmdDef, path string, ran *string, nodes *[]n
 	for k := 0; k < c.ArgCompFns; k++ {
 		k, p := k, path
 		o.ArgCompletionsFns(func(target string, prev []string, partial string) []string {
+			userLatency()
 			if callLog != nil {
 				fmt.Fprintf(callLog, "[argfn %s#%d target=%s prev=%q partial=%q]", p, k, target, prev, partial)
 			}
@@ -242,6 +275,7 @@ func build(o *getoptions.GetOpt, c *CmdDef, path string, ran *string, nodes *[]n
 	if c.Fn {
 		name := path
 		o.SetCommandFn(func(ctx context.Context, op *getoptions.GetOpt, args []string) error {
+			userLatency()
 			*ran += fmt.Sprintf("ran %s args=%q ctx=%v;", name, args, ctx.Err())
 			if fnCancel != nil {
 				fnCancel()
@@ -324,6 +358,11 @@ func observeArgv(sc *Scenario, ord Order, st *obsStats, shared []string) (out st
 		base = "asc"
 	}
 	var b strings.Builder
+	cbDelay, cbSlow = delayFor(ord), nil
+	if st != nil {
+		cbSlow = &st.slowCallbacks
+	}
+	defer func() { cbDelay, cbSlow = 0, nil }()
 	sim := simrt.Run(simrt.Config{Chooser: ch, MapBase: base, KeepGlobals: true}, func() {
 		defer func() {
 			if p := recover(); p != nil {
@@ -852,6 +891,16 @@ func check(sc *Scenario, seed uint64, k int, st *obsStats, nexec *int) *disagree
 	if helpLines(dev) != helpLines(base) {
 		return &disagreement{os[0], os[0], "Help() differs when getoptions.Writer is a file handle on a character device: " + firstDiff(helpLines(base), helpLines(dev)), "writer-device"}
 	}
+	// another program in the same process (a multi-tool binary, a test binary): the same names and the
+	// same command line, but flags where this one has strings and the other way round. Nothing it does
+	// may show in this program's next execution.
+	if nb := neighbour(sc); nb != nil {
+		saved := callerTables
+		callerTables = map[string][]string{}
+		observe(nb, os[0], nil)
+		callerTables = saved
+		*nexec++
+	}
 	// hidden state: the very same schedule again, after the others ran in this process
 	again := observeArgv(sc, os[0], st, callerArgv)
 	*nexec++
@@ -859,6 +908,45 @@ func check(sc *Scenario, seed uint64, k int, st *obsStats, nexec *int) *disagree
 		return &disagreement{os[0], os[0], firstDiff(base, again), "repeat"}
 	}
 	return nil
+}
+
+// neighbour returns a copy of the scenario in which every flag is a string option and every string or
+// number option a flag (same names, aliases, commands and command line), or nil if nothing would change.
+func neighbour(sc *Scenario) *Scenario {
+	raw, err := json.Marshal(sc)
+	if err != nil {
+		return nil
+	}
+	nb := &Scenario{}
+	if json.Unmarshal(raw, nb) != nil {
+		return nil
+	}
+	changed := false
+	var walk func(c *CmdDef)
+	swap := func(ds []OptDef) {
+		for i := range ds {
+			switch ds[i].Kind {
+			case 0:
+				ds[i].Kind, changed = 2, true
+			case 1:
+				ds[i].Kind, changed = 5, true
+			case 2, 3, 5, 14:
+				ds[i].Kind, changed = 0, true
+			}
+		}
+	}
+	walk = func(c *CmdDef) {
+		swap(c.Opts)
+		swap(c.LateOpts)
+		for i := range c.Subs {
+			walk(&c.Subs[i])
+		}
+	}
+	walk(&nb.Root)
+	if !changed {
+		return nil
+	}
+	return nb
 }
 
 func classify(d string) string {
@@ -1402,6 +1490,7 @@ func main() {
 		w.Probes["map_order_decisions"] += st.mapDecisions
 		w.Probes["map_order_decisions_nonsorted"] += st.mapNonSorted
 		w.Faults["map_order_permuted"] += st.mapNonSorted
+		w.Faults["slow_program_callback"] += st.slowCallbacks
 		if st.mapDecisions > 0 {
 			w.Nontrivial++
 			if len(hashes) < 1<<20 {
